@@ -46,7 +46,34 @@ type c05RefOut struct {
 	Port     int       `json:"port,omitempty"`
 	Err      string    `json:"err,omitempty"`
 	Hang     bool      `json:"hang,omitempty"`
+	// gRPC-peer permutations whose name is not "the name of the permutation it was derived from, with one marker
+	// element in front of the test case's own name", or that is issued twice
+	Misnamed []string `json:"misnamed"`
 }
+
+// a suite as --test-file could supply it: test cases called like the suite itself and like a piece of an
+// earlier name element (names only have to be unique within the suite)
+const c05EchoSuite = `
+name: Echo
+testCases:
+- request:
+    testName: Echo
+    streamType: STREAM_TYPE_UNARY
+    requestMessages:
+    - "@type": type.googleapis.com/connectrpc.conformance.v1.UnaryRequest
+      responseDefinition:
+        responseData: "dGVzdCByZXNwb25zZQ=="
+- request:
+    testName: Protocol
+    streamType: STREAM_TYPE_UNARY
+    requestMessages:
+    - "@type": type.googleapis.com/connectrpc.conformance.v1.UnaryRequest
+      responseDefinition:
+        responseData: "dGVzdCByZXNwb25zZQ=="
+        responseTrailers:
+        - name: x-custom-trailer
+          value: ["bing"]
+`
 
 func c05RefOne(scn c05RefScn) (out c05RefOut) {
 	out.Scn = scn
@@ -61,6 +88,7 @@ func c05RefOne(scn c05RefScn) (out c05RefOut) {
 		out.Err = "harness: " + err.Error()
 		return out
 	}
+	data["zz_verif_echo.yaml"] = []byte(c05EchoSuite)
 	allSuites, err := parseTestSuites(data)
 	if err != nil {
 		out.Err = "harness: " + err.Error()
@@ -75,6 +103,30 @@ func c05RefOne(scn c05RefScn) (out c05RefOut) {
 		out.Names = append(out.Names, tc.Request.TestName)
 	}
 	sort.Strings(out.Names)
+	out.Misnamed = []string{}
+	issued := map[string]bool{}
+	for _, n := range out.Names {
+		if issued[n] {
+			out.Misnamed = append(out.Misnamed, n+" (issued twice)")
+		}
+		issued[n] = true
+		for _, marker := range []string{grpcImplMarker, grpcClientImplMarker, grpcServerImplMarker} {
+			if !strings.Contains(n, "/"+marker+"/") && !strings.HasPrefix(n, marker+"/") {
+				continue
+			}
+			ok := false
+			for base, simple := range lib.testCaseNames {
+				if n == strings.TrimSuffix(base, simple)+marker+"/"+simple {
+					ok = true
+					break
+				}
+			}
+			if !ok {
+				out.Misnamed = append(out.Misnamed, n)
+			}
+			break
+		}
+	}
 	resolve := func(pats []string) []string {
 		res := []string{}
 		for _, p := range pats {
